@@ -330,6 +330,10 @@ def run_check(pid, cfg, tier_name, seed, tmp):
                     m["assumptions"].append(a)
             for v in s.get("violations") or []:
                 msg = v.get("msg", "")
+                if "HARNESS-STALL" in msg:
+                    # the harness's own scheduler gave up waiting (wall clock): not a verdict
+                    inconclusive.append("%s shard %d: %s" % (name, sh, msg[:300]))
+                    continue
                 if "WARNING: DATA RACE" in open(os.path.join(out, "log.txt"), errors="replace").read() and "without a recorded case" in msg:
                     continue  # reported below from the race detector's own text
                 shard_viol = True
